@@ -96,6 +96,50 @@ def rule_r1b(ctx):
     return res
 
 
+def _nonzero_edges(body, local):
+    """CFG edges taken when the bool `local` is true."""
+    out = set()
+    for x in range(body.n):
+        tt = body.term(x)
+        if tt and tt["k"] == "switch" and tt["discr"]["k"] in ("copy", "move") and tt["discr"]["place"]["l"] == local and not tt["discr"]["place"]["p"]:
+            zero_t = {tg for v, tg in tt["targets"] if v == 0}
+            for s_ in body.succs(x):
+                if s_ not in zero_t:
+                    out.add((x, s_))
+    return out
+
+
+def _last_use_predicate(ctx, fid):
+    """(index of the wire argument, index of the gate argument, True) if fid is a bool function that answers
+    `self.last_used.get(&wire) == Some(&gate)` (or the inner `==` behind a Some test) and nothing else."""
+    if not fid or not ctx.has_fn(fid) or ctx.fns[fid]["kind"] == "closure":
+        return None
+    hb = ctx.body(fid)
+    if hb.locals[0]["ty"] != "bool":
+        return None
+    gets = [(b, t) for b, t in hb.calls() if mir.last_seg(mir.callee(t) or "") == "get" and any(p and p[-1] == "last_used" for (r, p) in hb.trace_operand(t["args"][0]))]
+    if len(gets) != 1:
+        return None
+    gb, gt = gets[0]
+    wj = {r[1] for (r, p) in hb.trace_operand(gt["args"][1]) if r[0] == "arg"}
+    for cb_, ct in hb.calls():
+        if ct["func"].get("declared") != "std::cmp::PartialEq::eq" or len(ct["args"]) != 2 or ct["dest"]["l"] != 0:
+            continue
+        sides = [hb.trace_operand(a) for a in ct["args"]]
+        from_get = [any(r[:2] == ("call", gb) and not p for (r, p) in sd) for sd in sides]
+        gk = [set(), set()]
+        for i, sd in enumerate(sides):
+            for (r, p) in sd:
+                if r[0] == "agg" and not p:
+                    rv = hb.blocks[r[1]]["stmts"][r[2]]["rv"]
+                    if rv.get("variant") == "Some" and len(rv["ops"]) == 1:
+                        gk[i] |= {r2[1] for (r2, p2) in hb.trace_operand(rv["ops"][0]) if r2[0] == "arg" and not p2}
+        for i in (0, 1):
+            if from_get[i] and len(gk[1 - i]) == 1 and len(wj) == 1:
+                return (next(iter(wj)), next(iter(gk[1 - i])), True)
+    return None
+
+
 def rule_r7(ctx):
     """find_out_reg removes an operand from the wire map only on the edge where its last use is the current gate."""
     from .C02 import _dominated_by_edges
@@ -143,6 +187,22 @@ def rule_r7(ctx):
             if (from_get[0] and some_gate[1]) or (from_get[1] and some_gate[0]):
                 fake = {"rv": {"op": "Eq" if dec.endswith("::eq") else "Ne"}, "place": {"l": ct["dest"]["l"]}}
                 edges = mir.equality_edges(body, fake)
+                if edges and _dominated_by_edges(body, edges, b):
+                    ok = True
+        # the guard as a predicate of its own: `fn is_last_use(&self, wire, gate_id) -> bool { self.last_used.get(&wire) == Some(&gate_id) }`
+        for cb_, ct in body.calls():
+            h = mir.callee(ct) or ""
+            summ = _last_use_predicate(ctx, h)
+            if not summ or ct["dest"]["p"]:
+                continue
+            wj, gk, is_eq = summ
+            if wj - 1 >= len(ct["args"]) or gk - 1 >= len(ct["args"]):
+                continue
+            wkey = {(r2, tuple(p2)) for (r2, p2) in body.trace_operand(ct["args"][wj - 1])}
+            gate = any(r2 == ("arg", 2) and not p2 for (r2, p2) in body.trace_operand(ct["args"][gk - 1]))
+            if wkey == key and gate:
+                fake = {"rv": {"op": "Ne"}, "place": {"l": ct["dest"]["l"]}}      # `result != false`: the edges on which the predicate holds
+                edges = {(x, s_) for (x, s_) in _nonzero_edges(body, ct["dest"]["l"])} if is_eq else mir.equality_edges(body, {"rv": {"op": "Eq"}, "place": {"l": ct["dest"]["l"]}})
                 if edges and _dominated_by_edges(body, edges, b):
                     ok = True
         if ok:
